@@ -524,6 +524,13 @@ func c33RunBatch(c *vx.Ctx, payloads [][]byte) []c33Real {
 					}
 				}()
 				res.rest, res.restErr = io.ReadAll(q2)
+				if res.restErr != nil && st2.lim < 0 && res.err != nil {
+					// The decoder asked for bytes beyond the frame: stream.recordBytesRead
+					// refused (before reading, for ReadByte) and closed the read side of
+					// the QUIC stream, so what is left on it can no longer be observed.
+					// The decoder's verdict is judged as usual.
+					res.rest, res.restErr = append([]byte{}, c33Sentinel...), nil
+				}
 				if res.restErr != nil {
 					batchErr = "draining the stream: " + res.restErr.Error()
 					return
